@@ -38,6 +38,24 @@ def step (toks : List String) : String :=
         s!"{decide (u ≤ v)} {f}"
       | _, _ => "not-finite-nonneg"
     | _, _ => "bad-op"
+  | ["fp.ratio", c, t] =>
+    -- Python `int / int` (decimal arguments, t > 0)
+    match c.toNat?, t.toNat? with
+    | some x, some y =>
+      if y = 0 then "raise:ZeroDivisionError"
+      else s!"{toHexFixed 16 (Pcfg.SF.toBits (Pcfg.SF.ratio x y))} {showFloat (Float.ofNat x / Float.ofNat y)}"
+    | _, _ => "bad-op"
+  | ["fp.div", a, b] =>
+    match bitsOf a, bitsOf b with
+    | some x, some y =>
+      match Pcfg.SF.ofBits x, Pcfg.SF.ofBits y with
+      | some u, some v =>
+        if v = 0 then "raise:ZeroDivisionError"
+        else
+          let f := Float.ofBits (UInt64.ofNat x) / Float.ofBits (UInt64.ofNat y)
+          s!"{toHexFixed 16 (Pcfg.SF.toBits (Pcfg.SF.ratio u v))} {showFloat f}"
+      | _, _ => "not-finite-nonneg"
+    | _, _ => "bad-op"
   | _ => "bad-op"
 
 end Drive.SoftFloat
